@@ -263,7 +263,7 @@ func runC08(ctx *harness.Ctx) {
 			ctx.Check(nil, cs, oracleC08(ctx, cs))
 			return ctx.ViolationCount() < 6
 		})
-		ctx.Exhaustive(fmt.Sprintf("%d size-sweep templates x every size 0..%d", len(sweepTemplates), sweepMax), ctx.ViolationCount() == 0)
+		ctx.Exhaustive(fmt.Sprintf("%d size-sweep templates x every size 0..%d and 2^k-1..2^k+1 up to %d", len(sweepTemplates), ctx.Pick(sweepMax, 1100), ctx.Pick(4096, 16384)), ctx.ViolationCount() == 0)
 	})
 	ctx.SetExtra("sentences_with_avoided_known_feature", float64(excluded))
 }
